@@ -3,6 +3,8 @@
 package ast
 
 import (
+	"time"
+
 	"github.com/antlr4-go/antlr/v4"
 	"github.com/pkg/errors"
 
@@ -20,9 +22,25 @@ type verifEvent struct {
 }
 
 var (
-	verifTraceFor func(q string) ([]verifEvent, string, bool)
-	verifDispatch func(l *ToBoltListener, name string) bool
+	verifTraceFor    func(q string) ([]verifEvent, string, bool)
+	verifDispatch    func(l *ToBoltListener, name string) bool
+	verifDatetimeFor func(text string) (sec, nsec int64, off int, utc bool, errText string, ok bool)
 )
+
+// VerifParseZqlDatetime stands in for zitiql.ParseZqlDatetime inside the
+// executor only (regexp and time.Parse are not interpreted): the result is what
+// the REAL function of the current tree returned for this literal text when
+// /verif/gen/astgen ran it natively. Native builds call the real function.
+func VerifParseZqlDatetime(text string) (time.Time, error) {
+	sec, nsec, off, utc, errText, ok := verifDatetimeFor(text)
+	if !ok {
+		verifrt.Unsupported("datetime literal not in the generated table: " + text)
+	}
+	if errText != "" {
+		return time.Time{}, errors.New(errText)
+	}
+	return verifrt.ZonedTime(sec, nsec, off, utc), nil
+}
 
 type verifToken struct {
 	antlr.Token
